@@ -625,7 +625,7 @@ Proof. intros Hle H. induction Hle as [|m Hle IH]; [exact H|]. apply walk_objs_f
 Lemma internal_type_at_fuel_le f f' d it :
   (f <= f')%nat -> internal_type_at f d = Ok it -> internal_type_at f' d = Ok it.
 Proof.
-  intros Hle. unfold internal_type_at, find_min_max_addresses.
+  intros Hle. unfold internal_type_at, internal_range_at, find_min_max_addresses.
   destruct (walk_objs f (d_objects d) filter_all (d_objects d) 0 0 (0, 0)) as [[mn mx]|k] eqn:E; [|discriminate].
   rewrite (walk_objs_fuel_le _ _ _ _ _ _ _ _ _ Hle E). auto.
 Qed.
@@ -1779,18 +1779,147 @@ Proof.
     destruct Hside as [H0|Hprod]; [left; exact H0|right]. inversion Hprod; assumption.
 Qed.
 
-(* For every instance of ANY tree: with the internal type chosen by find_best_internal_address (from the walk with
-   `|_| true`) every value on the way lies in the internal type, and — internal type unsigned, or every step's
-   (count-1)*|stride| within it (the D3b side condition) — the emitted arithmetic with overflow checks on computes
-   exactly addr_sem. *)
+(* ---- the range the internal type is sized for: the walk's, widened by the values of every object ---- *)
+
+Lemma widen_values_spec : forall vs mm,
+  le_acc mm (widen_values mm vs) /\ forall v, In v vs -> within (widen_values mm vs) v.
+Proof.
+  induction vs as [|x t IH]; intros mm; cbn [widen_values fold_left].
+  - split; [apply le_acc_refl|intros v []].
+  - destruct (IH (Z.min (fst mm) x, Z.max (snd mm) x)) as (Hle & Hin). fold (widen_values (Z.min (fst mm) x, Z.max (snd mm) x) t) in *.
+    split.
+    + eapply le_acc_trans; [|exact Hle]. unfold le_acc; cbn [fst snd]; lia.
+    + intros v [<-|Hv]; [|apply Hin; exact Hv].
+      eapply within_mono; [|exact Hle]. unfold within; cbn [fst snd]; lia.
+Qed.
+
+(* what [internal_type_at] returning means *)
+Lemma internal_type_at_inv fuel d it :
+  internal_type_at fuel d = Ok it ->
+  exists mn mx mn' mx',
+    find_min_max_addresses fuel filter_all (d_objects d) = Ok (mn, mx) /\
+    mn' <= mn /\ mx <= mx' /\
+    (forall o v, In o (flat_map flat (d_objects d)) -> In v (object_it_values (d_objects d) o) -> mn' <= v <= mx') /\
+    best_internal mn' mx' = Ok it.
+Proof.
+  unfold internal_type_at, internal_range_at. intros H.
+  destruct (find_min_max_addresses fuel filter_all (d_objects d)) as [[mn mx]|f]; [|discriminate].
+  destruct (widen_values_spec (flat_map (object_it_values (d_objects d)) (preorder_objects (d_objects d))) (mn, mx)) as (Hle & Hin).
+  destruct (widen_values (mn, mx) _) as [mn' mx'] eqn:Ew. unfold le_acc in Hle. cbn [fst snd] in Hle.
+  exists mn, mx, mn', mx'. split; [reflexivity|]. split; [lia|]. split; [lia|]. split; [|exact H].
+  intros o v Ho Hv. apply (Hin v). apply in_flat_map. exists o. split; [|exact Hv]. rewrite preorder_objects_flat. exact Ho.
+Qed.
+
+(* the internal type contains the walk's range and the values of every object *)
+Lemma internal_type_at_covers fuel d it :
+  internal_type_at fuel d = Ok it ->
+  exists mn mx,
+    find_min_max_addresses fuel filter_all (d_objects d) = Ok (mn, mx) /\ mn <= 0 <= mx /\
+    8 <= bits it /\ (signed it = false -> mn = 0) /\
+    (forall z, mn <= z <= mx -> in_range it z = true) /\
+    (forall o v, In o (flat_map flat (d_objects d)) -> In v (object_it_values (d_objects d) o) -> in_range it v = true).
+Proof.
+  intros H. destruct (internal_type_at_inv _ _ _ H) as (mn & mx & mn' & mx' & Hw & Hlo & Hhi & Hvals & Hbi).
+  pose proof (walk_contains_zero _ _ _ _ _ Hw) as Hz.
+  destruct (best_internal_covers mn' mx' it Hbi ltac:(lia)) as (Hbits & Hsg & Hcov).
+  exists mn, mx. split; [exact Hw|]. split; [exact Hz|]. split; [exact Hbits|]. split; [|split].
+  - intros Hu. rewrite Hsg in Hu. apply Z.ltb_ge in Hu. lia.
+  - intros z Hzz. apply Hcov. lia.
+  - intros o v Ho Hv. apply Hcov. eapply Hvals; eauto.
+Qed.
+
+(* every step of every instance path is the (effective) address and repeat of an object of the tree *)
+Definition step_of_object (dev : list object) (s : step) : Prop :=
+  exists o, In o (flat_map flat dev) /\
+    eff_address o (ref_target dev o) = Some (s_addr s) /\ eff_repeat o (ref_target dev o) = s_rep s.
+
+Lemma inst_steps_objects dev : forall fi objs bl path tags l i,
+  (forall x, In x objs -> In x (flat_map flat dev)) ->
+  instances_objs fi dev objs bl path tags = Ok l -> In i l ->
+  exists rest, i_path i = path ++ rest /\ Forall (step_of_object dev) rest.
+Proof.
+  induction fi as [|f IH]; intros objs bl path tags l i Hsub H Hi; [discriminate|].
+  rewrite instances_objs_S in H. apply ocat_map_ok in H. destruct H as (rs & HF & ->).
+  apply in_concat in Hi. destruct Hi as (a & Ha & Hia).
+  destruct (Forall2_in_r _ _ _ HF _ Ha) as (o & Ho & Hcall).
+  pose proof (Hsub o Ho) as Hoin.
+  assert (Hleaf : forall lf, In i (leaf_instances bl path tags lf) ->
+            eff_address o (ref_target dev o) = Some (lf_addr lf) ->
+            eff_repeat o (ref_target dev o) = lf_rep lf ->
+            exists rest, i_path i = path ++ rest /\ Forall (step_of_object dev) rest).
+  { intros lf Hin Hea Her. apply leaf_instances_in in Hin. destruct Hin as (k & _ & ->).
+    eexists. split; [reflexivity|]. constructor; [|constructor]. exists o. cbn [s_addr s_rep]. auto. }
+  assert (Hblock : forall name off rep ch tg,
+            block_inst (instances_objs f dev) bl path name off rep ch tg = Ok a ->
+            eff_address o (ref_target dev o) = Some off ->
+            eff_repeat o (ref_target dev o) = rep ->
+            (forall x, In x ch -> In x (flat_map flat dev)) ->
+            exists rest, i_path i = path ++ rest /\ Forall (step_of_object dev) rest).
+  { intros name off rep ch tg Hbi Hea Her Hch.
+    destruct (block_inst_in _ _ _ _ _ _ _ _ _ _ Hbi Hia) as (k & r1 & _ & Hrec & Hi1).
+    destruct (IH _ _ _ _ _ _ Hch Hrec Hi1) as (rest & Hp & HFr).
+    exists ({| s_addr := off; s_rep := rep; s_idx := k |} :: rest). split; [rewrite Hp, <- app_assoc; reflexivity|].
+    constructor; [|exact HFr]. exists o. cbn [s_addr s_rep]. auto. }
+  destruct o as [c n off rep ch|rg|cm|bf|c n ov]; cbn [inst_one] in Hcall.
+  - eapply Hblock; [exact Hcall|reflexivity|unfold eff_repeat, object_repeat; destruct rep; reflexivity|].
+    intros x Hx. eapply flat_children; [exact Hoin|exact Hx].
+  - injection Hcall as <-. eapply Hleaf; [exact Hia|reflexivity|unfold eff_repeat, object_repeat, ref_target; destruct (rg_repeat rg); reflexivity].
+  - injection Hcall as <-. eapply Hleaf; [exact Hia|reflexivity|unfold eff_repeat, object_repeat, ref_target; destruct (cm_repeat cm); reflexivity].
+  - injection Hcall as <-. eapply Hleaf; [exact Hia|reflexivity|reflexivity].
+  - destruct ov as [tgt off rep|tgt acc1 addr allow reset rep|tgt addr allow rep];
+      (destruct (search_object tgt dev) as [t|] eqn:Es; [|discriminate]); destruct t; try discriminate.
+    + eapply Hblock; [exact Hcall| | |].
+      * cbn [ref_target override_target]. rewrite Es. destruct off; reflexivity.
+      * cbn [ref_target override_target]. rewrite Es. destruct rep; reflexivity.
+      * apply search_object_in in Es. destruct Es as [Es _]. intros x Hx. eapply flat_children; [exact Es|exact Hx].
+    + injection Hcall as <-. eapply Hleaf; [exact Hia| |].
+      * cbn [ref_target override_target]. rewrite Es. destruct addr; reflexivity.
+      * cbn [ref_target override_target]. rewrite Es. destruct rep; reflexivity.
+    + injection Hcall as <-. eapply Hleaf; [exact Hia| |].
+      * cbn [ref_target override_target]. rewrite Es. destruct addr; reflexivity.
+      * cbn [ref_target override_target]. rewrite Es. destruct rep; reflexivity.
+Qed.
+
+(* hence the D3b side condition HOLDS for every path once the internal type covers every object's values *)
+Lemma step_of_object_product_ok fuel d it s :
+  internal_type_at fuel d = Ok it -> step_of_object (d_objects d) s ->
+  step_product_ok it s /\
+  (forall r, s_rep s = Some r -> in_range it (Z.max (r_count r - 1) 0) = true /\ in_range it (Z.abs (r_stride r)) = true) /\
+  in_range it (s_addr s) = true.
+Proof.
+  intros Hit (o & Ho & Hea & Her).
+  destruct (internal_type_at_covers _ _ _ Hit) as (mn & mx & _ & _ & _ & _ & _ & Hvals).
+  assert (Hv : forall v, In v (object_it_values (d_objects d) o) -> in_range it v = true) by (intros v; apply Hvals; exact Ho).
+  unfold object_it_values in Hv. rewrite Hea, Her in Hv. cbn zeta in Hv.
+  split; [|split].
+  - unfold step_product_ok. destruct (s_rep s) as [r|]; [|exact I].
+    assert (H3 : in_range it (Z.max (r_count r - 1) 0 * Z.abs (r_stride r)) = true) by (apply Hv; cbn; auto).
+    unfold in_range in H3. nia.
+  - intros r Hr. rewrite Hr in Hv. split; apply Hv; cbn; auto.
+  - apply Hv. cbn. auto.
+Qed.
+
+Theorem steps_product_ok_holds d fuel fi l i it :
+  instances fi (d_objects d) = Ok l -> In i l -> internal_type_at fuel d = Ok it ->
+  steps_product_ok it (i_path i).
+Proof.
+  intros H Hi Hit.
+  destruct (inst_steps_objects (d_objects d) fi (d_objects d) [] [] [] l i (fun x Hx => in_objs_flat _ _ Hx) H Hi) as (rest & Hp & HF).
+  cbn [app] in Hp. rewrite Hp. unfold steps_product_ok. eapply Forall_impl; [|exact HF].
+  intros s Hs. apply (step_of_object_product_ok fuel d it s Hit Hs).
+Qed.
+
+(* For every instance of ANY tree: the internal type chosen by find_best_internal_address contains every value on the
+   way, and — internal type unsigned, or every step's (count-1)*|stride| within it (a side condition that
+   [steps_product_ok_holds] discharges since the repair of D3b) — the emitted arithmetic with overflow checks on
+   computes exactly addr_sem. *)
 Theorem internal_covers_checkpoints d fuel fi l i it :
   instances fi (d_objects d) = Ok l -> In i l -> internal_type_at fuel d = Ok it ->
   Forall (fun z => in_range it z = true) (checkpoints 0 (i_path i)).
 Proof.
-  intros H Hi Hit. unfold internal_type_at in Hit.
-  destruct (find_min_max_addresses fuel filter_all (d_objects d)) as [[mn mx]|f] eqn:Ew; [|discriminate].
+  intros H Hi Hit.
+  destruct (internal_type_at_covers _ _ _ Hit) as (mn & mx & Ew & _ & _ & _ & Hcov & _).
   destruct (walk_bounds_checkpoints _ _ _ _ _ _ _ Ew H Hi) as (_ & Hcp).
-  destruct (best_internal_covers mn mx it Hit (walk_contains_zero _ _ _ _ _ Ew)) as (_ & _ & Hcov).
   eapply Forall_impl; [|exact Hcp]. intros z Hz. apply Hcov. exact Hz.
 Qed.
 
@@ -1799,19 +1928,23 @@ Theorem no_overflow d fuel fi l i it :
   (signed it = false \/ steps_product_ok it (i_path i)) ->
   steps_eval true it 0 (i_path i) = Ok (i_addr i).
 Proof.
-  intros H Hi Hit Hside. pose proof Hit as Hit0. unfold internal_type_at in Hit.
-  destruct (find_min_max_addresses fuel filter_all (d_objects d)) as [[mn mx]|f] eqn:Ew; [|discriminate].
+  intros H Hi Hit Hside.
+  destruct (internal_type_at_covers _ _ _ Hit) as (mn & mx & Ew & Hz & Hbits & Huns & Hcov & _).
   destruct (walk_bounds_checkpoints _ _ _ _ _ _ _ Ew H Hi) as (Hidx & Hcp).
-  pose proof (walk_contains_zero _ _ _ _ _ Ew) as Hz.
-  destruct (best_internal_covers mn mx it Hit Hz) as (Hbits & Hsg & Hcov).
   unfold i_addr. replace (addr_sem (i_path i)) with (0 + addr_sem (i_path i)) by lia.
   apply steps_eval_exact; [lia| |].
   - apply (steps_ok_of_bounds it mn mx Hz Hcov (i_path i) 0); [lia|exact Hidx|exact Hcp|].
-    destruct Hside as [Huns|Hp]; [left|right; exact Hp].
-    rewrite Hsg in Huns. apply Z.ltb_ge in Huns. lia.
+    destruct Hside as [Hu|Hp]; [left; apply Huns; exact Hu|right; exact Hp].
   - eapply Forall_impl; [|exact Hcp]. intros z Hz0. apply Hcov. exact Hz0.
 Qed.
 
+(* unconditionally *)
+Theorem no_overflow_full d fuel fi l i it :
+  instances fi (d_objects d) = Ok l -> In i l -> internal_type_at fuel d = Ok it ->
+  steps_eval true it 0 (i_path i) = Ok (i_addr i).
+Proof.
+  intros H Hi Hit. eapply no_overflow; eauto. right. eapply steps_product_ok_holds; eauto.
+Qed.
 
 Lemma integer_bits_pos t : 0 < bits (integer_ity t).
 Proof. destruct t; cbn; lia. Qed.
@@ -1827,6 +1960,32 @@ Proof.
   rewrite (in_range_wrap _ _ (integer_bits_pos t) Hfit). reflexivity.
 Qed.
 
+
+Theorem gen_addr_exact_full d fuel fi l i it t :
+  instances fi (d_objects d) = Ok l -> In i l -> internal_type_at fuel d = Ok it ->
+  in_range (integer_ity t) (i_addr i) = true ->
+  gen_addr true it (integer_ity t) (i_path i) = Ok (i_addr i).
+Proof.
+  intros H Hi Hit Hfit. eapply gen_addr_exact; eauto. right. eapply steps_product_ok_holds; eauto.
+Qed.
+
+(* the index cast `index as IT` of every step is exact too: index <= count-1, which the internal type contains *)
+Theorem index_casts_exact d fuel fi l i it :
+  instances fi (d_objects d) = Ok l -> In i l -> internal_type_at fuel d = Ok it ->
+  Forall (fun s => match s_rep s with Some _ => wrap it (s_idx s) = s_idx s | None => True end) (i_path i).
+Proof.
+  intros H Hi Hit.
+  destruct (internal_type_at_covers _ _ _ Hit) as (mn & mx & Ew & _ & Hbits & _ & _ & _).
+  destruct (walk_bounds_checkpoints _ _ _ _ _ _ _ Ew H Hi) as (Hidx & _).
+  destruct (inst_steps_objects (d_objects d) fi (d_objects d) [] [] [] l i (fun x Hx => in_objs_flat _ _ Hx) H Hi) as (rest & Hp & HF).
+  cbn [app] in Hp. rewrite Hp in *. clear Hp.
+  induction HF as [|s t Hs HF IH]; [constructor|]. inversion Hidx as [|? ? Hi0 Hidx']; subst.
+  constructor; [|apply IH; exact Hidx'].
+  destruct (s_rep s) as [r|] eqn:Er; [|exact I].
+  destruct (step_of_object_product_ok fuel d it s Hit Hs) as (_ & Hr & _). destruct (Hr r Er) as (Hlast & _).
+  unfold idx_ok in Hi0. rewrite Er in Hi0. unfold rep_count in Hi0.
+  apply in_range_wrap; [lia|]. pose proof (ity_min_le_0 it) as Hmin. unfold in_range in *. lia.
+Qed.
 
 (* ================================================================================================ *)
 (** * 9. Assembled statements used by props/C12.v and props/C13.v *)
@@ -2020,6 +2179,140 @@ Proof.
   intros Hside. eapply gen_addr_exact; eauto.
 Qed.
 
+
+(* C13 in full, no side condition (since the repair of D3b) *)
+Theorem c13_accepted_no_overflow_full fx fuel dev_name d fi l :
+  accepted fx fuel dev_name d -> instances fi (d_objects d) = Ok l ->
+  forall i, In i l ->
+    exists t it, address_type_of (d_config d) (i_kind i) = Some t /\ internal_type_at fuel d = Ok it /\
+      in_range (integer_ity t) (i_addr i) = true /\
+      gen_addr true it (integer_ity t) (i_path i) = Ok (i_addr i).
+Proof.
+  intros Hacc Hil i Hi.
+  destruct (c13_accepted_no_overflow fx fuel dev_name d fi l Hacc Hil i Hi) as (t & it & Ht & Hit & Hfit & _ & Hgen).
+  exists t, it. repeat split; auto. apply Hgen. right. eapply steps_product_ok_holds; eauto.
+Qed.
+
+(* ---- for Emit.v: every address / |stride| literal of every lowered method lies in the internal type ---- *)
+
+(* the literals of a lowered method are the (effective) address and repeat of the object it was made from *)
+Lemma get_method_lits fx dev : forall f o m bls,
+  get_method fx f dev o = Ok (m, bls) ->
+  eff_address o (ref_target dev o) = Some (m_address m) /\ eff_repeat o (ref_target dev o) = m_repeat m.
+Proof.
+  intros f o m bls H. destruct f as [|f]; [discriminate|].
+  destruct o as [c n off rep ch|rg|cm|bf|c n ov].
+  - rewrite get_method_S_block in H. destruct (lower_list _ ch) as [[ms bls0]|k]; [|discriminate].
+    injection H as <- _. cbn [m_address m_repeat]. split; [reflexivity|].
+    unfold eff_repeat, object_repeat. destruct rep; reflexivity.
+  - cbn in H. injection H as <- _. cbn [m_address m_repeat]. split; [reflexivity|].
+    unfold eff_repeat, object_repeat, ref_target. destruct (rg_repeat rg); reflexivity.
+  - cbn in H. injection H as <- _. cbn [m_address m_repeat]. split; [reflexivity|].
+    unfold eff_repeat, object_repeat, ref_target. destruct (cm_repeat cm); reflexivity.
+  - cbn in H. injection H as <- _. split; reflexivity.
+  - rewrite get_method_S_ref in H. cbn [ref_target].
+    destruct (search_object (override_target ov) dev) as [tgt|]; [|discriminate].
+    destruct ov as [t off rep|t acc addr own reset rep|t addr own rep]; destruct tgt as [c' n' off' rep' ch'|rg'|cm'|bf'|c' n' ov'];
+      cbn [apply_override] in H; try discriminate.
+    + injection H as <- _. cbn [m_address m_repeat]. split.
+      * unfold eff_address, object_address. destruct off; reflexivity.
+      * unfold eff_repeat, object_repeat. destruct rep; reflexivity.
+    + destruct f as [|f]; [discriminate|]. cbn in H. injection H as <- _. cbn. split.
+      * unfold eff_address, object_address. destruct addr; reflexivity.
+      * unfold eff_repeat, object_repeat. destruct rep; reflexivity.
+    + destruct f as [|f]; [discriminate|]. cbn in H. injection H as <- _. cbn. split.
+      * unfold eff_address, object_address. destruct addr; reflexivity.
+      * unfold eff_repeat, object_repeat. destruct rep; reflexivity.
+Qed.
+
+Definition method_of_object (dev : list object) (m : lmethod) : Prop :=
+  exists o, In o (flat_map flat dev) /\
+    eff_address o (ref_target dev o) = Some (m_address m) /\ eff_repeat o (ref_target dev o) = m_repeat m.
+
+Lemma lower_list_inv gm : forall objs ms bls,
+  lower_list gm objs = Ok (ms, bls) ->
+  Forall2 (fun o m => exists bl, gm o = Ok (m, bl) /\ forall b, In b bl -> In b bls) objs ms /\
+  forall b, In b bls -> exists o m bl, In o objs /\ gm o = Ok (m, bl) /\ In b bl.
+Proof.
+  induction objs as [|o t IH]; intros ms bls H; cbn in H.
+  - injection H as <- <-. split; [constructor|intros b []].
+  - destruct (gm o) as [[m bl]|k] eqn:E; [|discriminate].
+    destruct (lower_list gm t) as [[ms' bls']|k] eqn:E2; [|discriminate]. injection H as <- <-.
+    destruct (IH _ _ eq_refl) as (HF & Hb). split.
+    + constructor.
+      * exists bl. split; [exact E|]. intros b Hbin. apply in_or_app. left. exact Hbin.
+      * clear -HF. induction HF as [|x y l1 l2 (bl0 & Hg & Hsub) HF' IHF]; constructor; [|exact IHF].
+        exists bl0. split; [exact Hg|]. intros b Hbin. apply in_or_app. right. apply Hsub. exact Hbin.
+    + intros b Hbin. apply in_app_or in Hbin. destruct Hbin as [Hbin|Hbin].
+      * exists o, m, bl. split; [left; reflexivity|]. split; assumption.
+      * destruct (Hb b Hbin) as (o' & m' & bl' & Ho' & Hg & Hin). exists o', m', bl'. split; [right; exact Ho'|]. split; assumption.
+Qed.
+
+(* every method of every block generated below an object of the tree comes from an object of the tree *)
+Lemma get_method_blocks fx dev : forall f o m bls,
+  In o (flat_map flat dev) -> get_method fx f dev o = Ok (m, bls) ->
+  forall b m', In b bls -> In m' (b_methods b) -> method_of_object dev m'.
+Proof.
+  induction f as [|f IH]; intros o m bls Ho H b m' Hb Hm'; [discriminate|].
+  destruct o as [c n off rep ch|rg|cm|bf|c n ov].
+  - rewrite get_method_S_block in H. destruct (lower_list (get_method fx f dev) ch) as [[ms bls0]|k] eqn:E; [|discriminate].
+    injection H as _ <-. destruct (lower_list_inv _ _ _ _ E) as (HF & Hbl).
+    assert (Hch : forall x, In x ch -> In x (flat_map flat dev)) by (intros x Hx; eapply flat_children; eauto).
+    destruct Hb as [<-|Hb].
+    + cbn [b_methods] in Hm'. destruct (Forall2_in_r _ _ _ HF _ Hm') as (x & Hx & bl & Hg & _).
+      exists x. split; [apply Hch; exact Hx|]. eapply get_method_lits; exact Hg.
+    + destruct (Hbl b Hb) as (x & mx & bl & Hx & Hg & Hin). eapply (IH x mx bl); eauto.
+  - cbn in H. injection H as _ <-. destruct Hb.
+  - cbn in H. injection H as _ <-. destruct Hb.
+  - cbn in H. injection H as _ <-. destruct Hb.
+  - rewrite get_method_S_ref in H.
+    destruct (search_object (override_target ov) dev) as [tgt|]; [|discriminate].
+    destruct ov as [t off rep|t acc addr own reset rep|t addr own rep]; destruct tgt as [c' n' off' rep' ch'|rg'|cm'|bf'|c' n' ov'];
+      cbn [apply_override] in H; try discriminate.
+    + injection H as _ <-. destruct Hb.
+    + destruct f as [|f]; [discriminate|]. cbn in H. injection H as _ <-. destruct Hb.
+    + destruct f as [|f]; [discriminate|]. cbn in H. injection H as _ <-. destruct Hb.
+Qed.
+
+Theorem lowered_methods_of_objects fx fuel dev_name objs bls :
+  lower fx fuel dev_name objs = Ok bls ->
+  forall b m, In b bls -> In m (b_methods b) -> method_of_object objs m.
+Proof.
+  unfold lower. destruct (lower_list (get_method fx fuel objs) objs) as [[ms bls0]|k] eqn:E; [|discriminate].
+  intros H. injection H as <-. destruct (lower_list_inv _ _ _ _ E) as (HF & Hbl).
+  intros b m [<-|Hb] Hm.
+  - cbn [b_methods] in Hm. destruct (Forall2_in_r _ _ _ HF _ Hm) as (x & Hx & bl & Hg & _).
+    exists x. split; [apply in_objs_flat; exact Hx|]. eapply get_method_lits; exact Hg.
+  - destruct (Hbl b Hb) as (x & mx & bl & Hx & Hg & Hin).
+    eapply (get_method_blocks fx objs fuel x mx bl); eauto. apply in_objs_flat. exact Hx.
+Qed.
+
+(* THE LEMMA FOR Emit.v: the address literal and the |stride| literal of every method of every lowered block are
+   representable in the internal type (and so is count-1, the largest index) *)
+Theorem internal_type_at_covers_method_literals fx fl fw dev_name d bls it :
+  lower fx fl dev_name (d_objects d) = Ok bls -> internal_type_at fw d = Ok it ->
+  forall b m, In b bls -> In m (b_methods b) ->
+    in_range it (m_address m) = true /\
+    forall r, m_repeat m = Some r ->
+      in_range it (Z.abs (r_stride r)) = true /\ in_range it (Z.max (r_count r - 1) 0) = true /\
+      in_range it (Z.max (r_count r - 1) 0 * Z.abs (r_stride r)) = true.
+Proof.
+  intros Hl Hit b m Hb Hm. destruct (lowered_methods_of_objects _ _ _ _ _ Hl b m Hb Hm) as (o & Ho & Hea & Her).
+  destruct (internal_type_at_covers _ _ _ Hit) as (_ & _ & _ & _ & _ & _ & _ & Hvals).
+  assert (Hv : forall v, In v (object_it_values (d_objects d) o) -> in_range it v = true) by (intros v; apply Hvals; exact Ho).
+  unfold object_it_values in Hv. rewrite Hea, Her in Hv. cbn zeta in Hv.
+  split; [apply Hv; cbn; auto|]. intros r Hr. rewrite Hr in Hv. repeat split; apply Hv; cbn; auto.
+Qed.
+
+(* the same for [internal_type] (default fuel), the function Emit.v calls *)
+Theorem internal_type_covers_method_literals fx fl dev_name d bls it :
+  lower fx fl dev_name (d_objects d) = Ok bls -> internal_type d = Ok it ->
+  forall b m, In b bls -> In m (b_methods b) ->
+    in_range it (m_address m) = true /\
+    forall r, m_repeat m = Some r ->
+      in_range it (Z.abs (r_stride r)) = true /\ in_range it (Z.max (r_count r - 1) 0) = true /\
+      in_range it (Z.max (r_count r - 1) 0 * Z.abs (r_stride r)) = true.
+Proof. unfold internal_type. apply internal_type_at_covers_method_literals. Qed.
 
 (* ---- the hypothesis [root_name_fresh] is necessary: a block named like the device (D11b) ---- *)
 
